@@ -22,9 +22,10 @@ Theorem c04_holds : forall h ops, C04_holds h ops (run h ops).
 Proof. exact C04_holds_run. Qed.
 Print Assumptions c04_holds.
 
-(* membership partition: after every prefix of every history in which no Permit is issued for a
-   pod the cache holds as bound, every child of every gang is in exactly one of pending / waiting /
-   bound (and the sets are duplicate free, pending pods are children) *)
+(* membership partition: after every prefix of every protocol-conformant history (no Permit for a
+   pod the cache holds as bound, no Permit / PostBind for a pod that is not a child of its gang at
+   that moment), every child of every gang is in exactly one of pending / waiting / bound, and
+   pending, waiting and bound contain only current children ([gpart]; duplicate free) *)
 Theorem c04_partition : forall h ops pre suf,
   conformant h init_state ops -> ops = pre ++ suf ->
   forall g x, get_gang (exec h init_state pre) g = Some x ->
@@ -61,6 +62,16 @@ Theorem c04_release_only_when_satisfied : forall h s p s' r,
   /\ (o_res r = res_success \/ o_res r = res_wait).
 Proof. exact release_iff_group_valid. Qed.
 Print Assumptions c04_release_only_when_satisfied.
+
+(* ... and in a conformant state the members counted are real: every gang of the group has its
+   minimum number of CHILDREN waiting (or waiting + bound) *)
+Theorem c04_release_counts_real_members : forall h s p s' r,
+  all_part s -> permit_ok h s (Permit p) = true ->
+  step h s (Permit p) = (s', r) -> o_res r = res_success ->
+  forall x, get_gang s' (gang_of h p) = Some x -> gang_of h p <> 0 ->
+  group_valid_real (view s') (g_group x).
+Proof. exact release_counts_real_members. Qed.
+Print Assumptions c04_release_counts_real_members.
 
 (* a waiting pod is allowed only by a Permit that returns Success *)
 Theorem c04_allow_only_on_success : forall h s o s' r,
@@ -108,6 +119,16 @@ Theorem c04_permit_toctou_example :
   check s1 1 = true /\ check s2 2 = true /\ all_valid s2 [1; 2] = false.
 Proof. exact permit_toctou. Qed.
 Print Assumptions c04_permit_toctou_example.
+
+(* the guard on PostBind is needed as well: a delete event overtaking PostBind leaves a ghost in bound *)
+Example c04_postbind_after_delete_example :
+  let ops := [PodAdd 0 false; PodAdd 1 false; Permit 0; PodDelete 0] in
+  let s := exec ex2_hdr init_state ops in
+  conformant ex2_hdr init_state ops
+  /\ permit_ok ex2_hdr s (PostBind 0) = false
+  /\ all_part_okb (view s) = true
+  /\ all_part_okb (view (fst (step ex2_hdr s (PostBind 0)))) = false.
+Proof. exact postbind_after_delete. Qed.
 
 (* non-vacuity *)
 Example c04_release_example :
